@@ -198,9 +198,12 @@ func c19Exhaustive(tier string) []corr.Case {
 		}
 		cases = append(cases, mk("mkdir "+hx("/a"), "mkdir "+hx(sp), "create "+hx(sp), "remove "+hx(sp), "snapshot"))
 	}
+	// names with a backslash next to the same names with a separator
+	cases = append(cases, mk("mkdir "+hx("/d"), "create "+hx("/d/f"), "write 0 6669727374", "close 0", "create "+hx("/d\\f"), "write 1 7365636f6e64", "close 1",
+		"stat "+hx("/d/f"), "stat "+hx("/d\\f"), "mkdir "+hx("/d\\sub"), "stat "+hx("/d/sub"), "remove "+hx("/d\\f"), "stat "+hx("/d/f"), "snapshot"))
 	// rename and remove over name classes
 	setup := []string{"mkdirall " + hx("/d/e"), "create " + hx("/d/e/f"), "write 0 6162", "create " + hx("/g"), "write 1 63", "mkdir " + hx("/m")}
-	names := []string{"/d", "/d/e", "/d/e/f", "/g", "/m", "/nope", "/nope/x", "/g/x", "/", "d//e/", "/m/../g"}
+	names := []string{"/d", "/d/e", "/d/e/f", "/g", "/m", "/nope", "/nope/x", "/g/x", "/", "d//e/", "/m/../g", "/d\\e", "/d/e\\f"}
 	for _, a := range names {
 		cases = append(cases, mk(append(append([]string{}, setup...), "remove "+hx(a), "snapshot", "readat 0 4 0", "hstat 0", "write 0 7a", "readat 0 4 0")...))
 		for _, b := range names {
@@ -232,7 +235,8 @@ func parentOf(k string) string {
 	return k[:i]
 }
 
-var baseNames = []string{"/a", "/a/b", "/a/b/c", "/a/f", "/d", "/d/f", "/f", "/a/b/g", "/d/e/h", "/x y", "/a/é"}
+// (a backslash is an ordinary character of a name on the server: "/a\\b" is an entry of the root, not /a/b)
+var baseNames = []string{"/a", "/a/b", "/a/b/c", "/a/f", "/d", "/d/f", "/f", "/a/b/g", "/d/e/h", "/x y", "/a/é", "/a\\b", "/d\\f", "/a/b\\c"}
 
 func spell(r *corr.Rand, p string) string {
 	switch r.Intn(12) {
